@@ -314,13 +314,24 @@ def evaluate(mod, cases, modes, tier, timeout_s=None):
     # mode) on their own with a ten times longer limit before they are judged
     retried = 0
     for mode in modes:
-        again = [(i, r['case'], 10 * timeout_s) for i, r in enumerate(recs)
-                 if r['impl'].get(mode) == 'HANG' and r['model'] != 'FUEL'][:8]
-        if again:
+        for batch in range(6):
+            again = [(i, r['case'], 10 * timeout_s) for i, r in enumerate(recs)
+                     if r['impl'].get(mode) == 'HANG' and r['model'] != 'FUEL' and not r.get('_retried_' + mode)][:8]
+            if not again:
+                break
             retried += len(again)
             res = run_impl(mod.PROP, mode, again, min(4, nchild), 10 * timeout_s, getattr(mod, 'EXTRA_ENV', None))
-            for i, r in res.items():
-                recs[i]['impl'][mode] = canon_impl(r)
+            still = 0
+            for (i, _, _) in again:
+                recs[i]['_retried_' + mode] = True
+                if i in res:
+                    recs[i]['impl'][mode] = canon_impl(res[i])
+                still += recs[i]['impl'][mode] == 'HANG'
+            if still:
+                break          # a genuine non-termination: no need to spend the long limit on the others
+    for r in recs:
+        for k in [k for k in r if k.startswith('_retried_')]:
+            del r[k]
     t_impl = time.time() - t0
     return recs, {'model_s': round(t_model, 2), 'impl_s': round(t_impl, 2), 'hang_retries': retried}
 
